@@ -56,8 +56,8 @@ let () =
            (match index_sem (nat_of_int (int_of_string n)) (explode (unhex e)) with
             | None -> print_endline "N"
             | Some l -> print_endline ("P " ^ String.concat "," (List.map (fun p -> string_of_int (int_of_nat p)) l)))
-       | ["N"; tbl; vars; locals; bi; name] ->
-           let ((dh, vs), r) = ns_case (names tbl) (names vars) (optnames locals) (optnames bi) (explode (unhex name)) in
+       | ["N"; tbl; outer; vars; locals; bi; name] ->
+           let ((dh, vs), r) = ns_case (names tbl) (names outer) (names vars) (optnames locals) (optnames bi) (explode (unhex name)) in
            let rs = (match r with
                      | EVal v -> "V " ^ hex (implode v)
                      | EAttributeError n -> "A " ^ hex (implode n)
